@@ -148,8 +148,8 @@ func Norm(nodes []*html.Node, m Mode, raw bool) []*N {
 
 // Options for comparison.
 type Options struct {
-	IgnoreAttrValues bool                           // compare attribute names only
-	IgnoreText       bool                           // ignore text nodes entirely
+	IgnoreAttrValues bool                             // compare attribute names only
+	IgnoreText       bool                             // ignore text nodes entirely
 	AttrEq           func(tag, key, a, b string) bool // nil = exact
 }
 
